@@ -215,15 +215,15 @@ def allOnTraps (L : Layout) : List (QId × RPos) → List Nat → Bool
 
 /-- `Register(qubits, layout=L, trap_ids=ids)` / `Register3D(…)` / `from_coordinates(…, layout=,
 trap_ids=)`: `BaseRegister.__init__` then `_validate_layout` (dimensionality, unique trap ids,
-as many trap ids as qubits, existing trap ids, every qubit exactly on its trap).  `dim` is the
+existing trap ids, as many trap ids as qubits, every qubit exactly on its trap).  `dim` is the
 dimensionality of the given positions. -/
 def mkRegisterDirect (L : Layout) (dim : Nat) (qubits : List (QId × RPos)) (trapIds : List Nat) :
     Res Reg :=
   if qubits.isEmpty then .err .emptyRegister
   else if L.dim ≠ dim then .err .layoutMismatch
   else if ¬ trapIds.Nodup then .err .dupTrapId
-  else if trapIds.length ≠ qubits.length then .err .layoutMismatch
   else if ¬ trapIds.all (fun i => decide (i < L.nTraps)) then .err .badTrapId
+  else if trapIds.length ≠ qubits.length then .err .layoutMismatch
   else if ¬ allOnTraps L qubits trapIds then .err .layoutMismatch
   else .ok { dim := dim, qubits := (qubits.map (·.1)).zip (trapIds.map L.trapCoord),
              trapIds := trapIds }
